@@ -1,13 +1,16 @@
+// k03: File.Update against the Lean model `fu` (ops: new t len / upd t pos ins del) and, Go-side, against the
+// plain-array statement of property C03 (oracle): per-line values, length, running histogram, guard panics.
 package main
 
 import (
+	"encoding/json"
 	"fmt"
-	"gopkg.in/src-d/hercules.v10/verifharness/hv"
 	"math/rand"
 	"strings"
 
 	"gopkg.in/src-d/hercules.v10/internal/burndown"
 	"gopkg.in/src-d/hercules.v10/internal/rbtree"
+	"gopkg.in/src-d/hercules.v10/verifharness/hv"
 )
 
 func dump(f *burndown.File) string {
@@ -22,22 +25,51 @@ func dump(f *burndown.File) string {
 	return strings.Join(sb, " ")
 }
 
+func flatten(f *burndown.File) []int {
+	var res []int
+	prevLine, prevVal := -1, 0
+	f.ForEach(func(line, value int) {
+		if prevLine >= 0 {
+			for i := prevLine; i < line; i++ {
+				res = append(res, prevVal)
+			}
+		}
+		prevLine, prevVal = line, value
+	})
+	return res
+}
+
+type op struct{ T, Pos, Ins, Del int }
+
 func main() {
-	hvSeed, hvCount, wo, wi, _, hvDone := hv.Args()
+	hvSeed, hvCount, wo, wi, extra, hvDone := hv.Args()
 	defer hvDone()
 	rng := rand.New(rand.NewSource(hvSeed))
+	maxLen, maxOps := 7, 8
+	if len(extra) > 0 && extra[0] == "wide" {
+		maxLen, maxOps = 30, 25
+	}
+	stats := map[string]int{}
 	for it := 0; it < hvCount; it++ {
-		initLen := rng.Intn(7)
+		initLen := rng.Intn(maxLen)
 		alloc := rbtree.NewAllocator()
 		var em []string
+		hist := map[int]int{}
 		f := burndown.NewFile(0, initLen, alloc, func(cur, prev, delta int) {
 			em = append(em, fmt.Sprintf("(%d,%d,%d)", cur, prev, delta))
+			hist[prev] += delta
 		})
 		fmt.Fprintf(wo, "new 0 %d\n", initLen)
 		fmt.Fprintf(wi, "ok %s\n", dump(f))
+		arr := make([]int, initLen)
+		var done []op
+		fail := func(what string) {
+			c, _ := json.Marshal(map[string]interface{}{"init_len": initLen, "ops": done})
+			hv.Fail("array-model", string(c), what)
+		}
 		l := initLen
 		t := 0
-		n := 1 + rng.Intn(8)
+		n := 1 + rng.Intn(maxOps)
 		for i := 0; i < n; i++ {
 			if rng.Intn(2) == 0 {
 				t += rng.Intn(2)
@@ -51,17 +83,21 @@ func main() {
 			if rng.Intn(2) == 0 || del == 0 {
 				ins = 1 + rng.Intn(3)
 			}
+			malformed := false
 			if rng.Intn(40) == 0 { // malformed
 				pos = l + 1 + rng.Intn(3)
+				malformed = true
 			}
 			if rng.Intn(40) == 0 {
 				del = l - pos + 1 + rng.Intn(3)
 				if del < 0 {
 					del = 1
 				}
+				malformed = true
 			}
 			em = nil
 			fmt.Fprintf(wo, "upd %d %d %d %d\n", t, pos, ins, del)
+			done = append(done, op{t, pos, ins, del})
 			panicked := false
 			func() {
 				defer func() {
@@ -71,12 +107,54 @@ func main() {
 				}()
 				f.Update(t, pos, ins, del)
 			}()
+			if malformed != panicked {
+				if malformed {
+					fail("out-of-range request accepted")
+				} else {
+					fail("valid request rejected")
+				}
+			}
 			if panicked {
+				stats["rejected"]++
 				fmt.Fprintf(wi, "panic\n")
 				break // state may be corrupted after a mid-update panic
 			}
 			fmt.Fprintf(wi, "ok %s | %s\n", dump(f), strings.Join(em, " "))
+			// the array statement of the property
+			na := append([]int{}, arr[:pos]...)
+			for k := 0; k < ins; k++ {
+				na = append(na, t)
+			}
+			na = append(na, arr[pos+del:]...)
+			arr = na
 			l += ins - del
+			stats["updates"]++
+			got := flatten(f)
+			if f.Len() != len(arr) || fmt.Sprint(got) != fmt.Sprint(arr) {
+				fail(fmt.Sprintf("lines %v, array says %v", got, arr))
+				break
+			}
+			want := map[int]int{}
+			for _, v := range arr {
+				want[v]++
+			}
+			// hist started without the initial lines: NewFile reports them through the updater as well
+			bad := false
+			for k, v := range want {
+				if hist[k] != v {
+					bad = true
+				}
+			}
+			for k, v := range hist {
+				if v != want[k] {
+					bad = true
+				}
+			}
+			if bad {
+				fail(fmt.Sprintf("histogram %v, array histogram %v", hist, want))
+				break
+			}
 		}
 	}
+	hv.Stats(stats)
 }
